@@ -837,14 +837,17 @@ h_proof! { #[kani::unwind(8)] fn c17_u_listener_ids() {
     kani::cover!(r.is_ok());
     let ok = r.is_ok();
     std::mem::forget(r);
-    assert!(ok == (id > nq as u64), "C17: custom listeners are accepted only with ids above num_queues (queues and exit event are reserved)");
+    assert!(!ok || id > nq as u64, "C17: custom listeners are accepted only with ids above num_queues (queues and exit event are reserved)");
+    // ids the backend interface can carry (u16) must be accepted; larger ones may be refused - if they are
+    // accepted, c17_u_run_listener requires them to be delivered unchanged
+    assert!(ok || id <= nq as u64 || id > 0xffff, "C17: a listener id above num_queues that fits the event-id type must be accepted");
     if ok {
         assert!(vgm::registered(ev::EPFD0, vgm::FD0 + 7) == Some(id), "C17: registered with exactly the given id");
     } else {
         assert!(vgm::registrations_of(vgm::FD0 + 7) == 0);
     }
     let r = hnd.unregister_listener(vgm::FD0 + 7, EventSet::IN, id);
-    assert!(r.is_ok() == (id > nq as u64));
+    assert!(!r.is_ok() || id > nq as u64);
     std::mem::forget(r);
     assert!(vgm::registrations_of(vgm::FD0 + 7) == 0);
 } }
@@ -858,6 +861,7 @@ h_proof! { #[kani::unwind(6)] fn c17_u_dispatch_ids() {
     let v1 = vr::mk_vring_mutex(vr::dup_mem(&mem), 256);
     v0.set_enabled(true);
     v1.set_enabled(true);
+    v0.set_queue_ready(true); // ring 0 started and enabled, ring 1 enabled but not started
     // SAFETY: ghost descriptor number
     let exit = unsafe { EventNotifier::from_raw_fd(vgm::FD0 + 6) };
     let hnd = ManuallyDrop::new(ev::mk_epoll_handler(VB, vec![v0, v1], 0, Some(exit)));
@@ -867,7 +871,40 @@ h_proof! { #[kani::unwind(6)] fn c17_u_dispatch_ids() {
     let g = vgm::vg();
     if id as usize == nq {
         assert!(res == Some(true) && g.he_calls == 0, "C17: the exit event (id num_queues) stops the worker and is never delivered to the backend");
+    } else if id == 1 {
+        assert!(res == Some(false) && g.he_calls == 0, "C11/C12: an event for a ring that is not started is not dispatched");
     } else {
         assert!(res == Some(false) && g.he_calls == 1 && g.he_event == id, "C17: every other id is delivered with exactly its id");
     }
 } }
+
+// @harness props=C17 tier=quick reach=off timeout=900 bound="one iteration of the real worker loop run(): a custom listener registered with ANY accepted 64-bit id fires once, then the exit event; 2 queues, no rings on this worker" stubs="Epoll::ctl, Epoll::wait (scripted: listener event, then exit event), vec::from_elem (event buffer), EventNotifier::notify, close/OwnedFd::drop"
+#[kani::proof]
+#[kani::unwind(4)]
+#[kani::stub(vmm_sys_util::epoll::Epoll::ctl, vgm::ghost_epoll_ctl)]
+#[kani::stub(vmm_sys_util::epoll::Epoll::wait, vgm::ghost_epoll_wait)]
+#[kani::stub(std::vec::from_elem, vgm::ghost_from_elem)]
+#[kani::stub(vmm_sys_util::event::EventConsumer::consume, vgm::ghost_consume)]
+#[kani::stub(vmm_sys_util::event::EventNotifier::notify, vgm::ghost_notify)]
+#[kani::stub(<std::os::fd::OwnedFd as std::ops::Drop>::drop, vgm::ghost_ownedfd_drop)]
+#[kani::stub(std::alloc::handle_alloc_error, vgm::ghost_alloc_error)]
+fn c17_u_run_listener() {
+    let nq: usize = 2;
+    vgm::vg().num_queues = nq;
+    // SAFETY: ghost descriptor number
+    let exit = unsafe { EventNotifier::from_raw_fd(vgm::FD0 + 6) };
+    let hnd = ManuallyDrop::new(ev::mk_epoll_handler(VB, Vec::new(), 0, Some(exit)));
+    let id: u64 = kani::any();
+    let r = hnd.register_listener(vgm::FD0 + 7, EventSet::IN, id);
+    let accepted = r.is_ok();
+    std::mem::forget(r);
+    kani::assume(accepted);
+    vgm::vg().wait_data0 = id;
+    vgm::vg().wait_data1 = nq as u64; // then the exit event
+    let ok = ev::worker_run(&hnd);
+    let g = vgm::vg();
+    kani::cover!(ok && g.he_calls == 1);
+    assert!(ok, "C17: worker loop ends on the exit event");
+    assert!(g.he_calls == 1, "C17: an accepted custom listener's event is delivered to the backend exactly once (never taken for a queue or the exit event)");
+    assert!(g.he_event as u64 == id, "C17: the listener event is delivered with exactly the registered id");
+}
